@@ -78,6 +78,12 @@ def make_datetime(us):
 class STimedelta:
     __slots__ = ("us",)
 
+    def __getattr__(self, name):
+        # an operation the proxy does not model is "unsupported" (inconclusive), never an AttributeError inside the code under test
+        if name.startswith("__") or name in type(self).__slots__:
+            raise AttributeError(name)
+        raise Abort("unsupported", f"{type(self).__name__}.{name}")
+
     def __init__(self, us):
         self.us = us
 
@@ -185,6 +191,12 @@ class STimedelta:
 class SDatetime:
     __slots__ = ("us",)
     tzinfo = None
+
+    def __getattr__(self, name):
+        # an operation the proxy does not model is "unsupported" (inconclusive), never an AttributeError inside the code under test
+        if name.startswith("__") or name in type(self).__slots__:
+            raise AttributeError(name)
+        raise Abort("unsupported", f"{type(self).__name__}.{name}")
 
     def __init__(self, us):
         self.us = us
